@@ -19,3 +19,7 @@ reg("C08", "exploration", [P("xform", "proj")])
 reg("C04", "exploration", [P("rast", "cover")])
 reg("C05", "exploration", [P("rast", "interp")])
 reg("C03", "exploration", [P("clip", "all")])
+reg("C01", "exploration", [P("pipe", "image")])
+reg("C02", "exploration", [P("pipe", "safety"), P("pipe", "safety", profile="verif-rel", tiers=("thorough",), name="safety-rel")])
+reg("C06", "model_checking", [P("pipe", "order")])
+reg("C07", "exploration", [P("pipe", "config")])
